@@ -131,8 +131,8 @@ LLVMFuzzerTestOneInput(const uint8_t* data, size_t size)
 	suppr::read_suppressions(in, supprs);
       }
       // the same bytes as a KMI whitelist file
-      char path[64];
-      snprintf(path, sizeof path, "/tmp/verif-wl-%d", (int) getpid());
+      char path[512];
+      snprintf(path, sizeof path, "%s/verif-wl-%d", getenv("VERIF_FUZZ_TMP") ? getenv("VERIF_FUZZ_TMP") : "/tmp", (int) getpid());
       {
 	std::ofstream o(path);
 	o << text;
